@@ -1,0 +1,103 @@
+// Licensed to the Apache Software Foundation (ASF) under one
+// or more contributor license agreements.  See the NOTICE file
+// distributed with this work for additional information
+// regarding copyright ownership.  The ASF licenses this file
+// to you under the Apache License, Version 2.0 (the
+// "License"); you may not use this file except in compliance
+// with the License.  You may obtain a copy of the License at
+//
+//   http://www.apache.org/licenses/LICENSE-2.0
+//
+// Unless required by applicable law or agreed to in writing,
+// software distributed under the License is distributed on an
+// "AS IS" BASIS, WITHOUT WARRANTIES OR CONDITIONS OF ANY
+// KIND, either express or implied.  See the License for the
+// specific language governing permissions and limitations
+// under the License.
+
+//! Verification-only hooks (feature `verif-hooks`, off by default).
+//!
+//! Nothing in this module is part of the supported API. The hooks only observe state or
+//! inject already-hashed inputs; they do not change the behaviour of any existing code path.
+
+use std::hash::Hasher;
+
+use crate::hash::MurmurHash3X64128;
+use crate::hash::XxHash64;
+
+/// MurmurHash3 x64 128 of the concatenation of `chunks`, fed one `write` call per chunk.
+pub fn murmur3_x64_128(seed: u64, chunks: &[&[u8]]) -> (u64, u64) {
+    let mut hasher = MurmurHash3X64128::with_seed(seed);
+    for chunk in chunks {
+        hasher.write(chunk);
+    }
+    hasher.finish128()
+}
+
+/// XXH64 of the concatenation of `chunks`, fed one `write` call per chunk.
+pub fn xxhash64(seed: u64, chunks: &[&[u8]]) -> u64 {
+    let mut hasher = XxHash64::with_seed(seed);
+    for chunk in chunks {
+        hasher.write(chunk);
+    }
+    hasher.finish()
+}
+
+/// The 16-bit seed hash stored in serialized images.
+pub fn seed_hash(seed: u64) -> u16 {
+    crate::hash::compute_seed_hash(seed)
+}
+
+/// Dump of an HLL sketch's internal state, taken without going through the serializer.
+#[derive(Debug, Clone, PartialEq)]
+pub struct HllState {
+    /// Configured lg_k.
+    pub lg_config_k: u8,
+    /// Target type: 0 = Hll4, 1 = Hll6, 2 = Hll8.
+    pub tgt_type: u8,
+    /// Current mode: 0 = list, 1 = set, 2 = array.
+    pub cur_mode: u8,
+    /// Non-empty coupons (list / set mode), in storage order.
+    pub coupons: Vec<u32>,
+    /// lg of the coupon container size (list / set mode).
+    pub lg_arr: u8,
+    /// Effective register values (array mode), one per slot.
+    pub registers: Vec<u8>,
+    /// cur_min (Hll4), 0 otherwise.
+    pub cur_min: u8,
+    /// num_at_cur_min (Hll4) / num_zeros (Hll6, Hll8).
+    pub num_at_cur_min: u32,
+    /// Aux map (slot, value) pairs (Hll4), in storage order.
+    pub aux: Vec<(u32, u8)>,
+    /// HIP accumulator.
+    pub hip_accum: f64,
+    /// kxq0.
+    pub kxq0: f64,
+    /// kxq1.
+    pub kxq1: f64,
+    /// Out-of-order flag.
+    pub out_of_order: bool,
+}
+
+/// Dump of a CPC sketch's scalar fields.
+#[derive(Debug, Clone, PartialEq)]
+pub struct CpcFields {
+    /// lg_k
+    pub lg_k: u8,
+    /// number of coupons
+    pub num_coupons: u32,
+    /// window offset
+    pub window_offset: u8,
+    /// first interesting column
+    pub first_interesting_column: u8,
+    /// merge flag
+    pub merge_flag: bool,
+    /// whether the sliding window is allocated
+    pub has_window: bool,
+    /// number of entries in the surprising-value table (0 if none)
+    pub table_entries: u32,
+    /// kxp register
+    pub kxp: f64,
+    /// HIP accumulator
+    pub hip_est_accum: f64,
+}
